@@ -76,7 +76,19 @@ fn fault_body<const NV: usize, const NA: usize>(fast_start: bool, audio: bool, a
     let vpts: [u64; NV] = core::array::from_fn(|i| 3000 * i as u64);
     let apts: [u64; NA] = core::array::from_fn(|j| 1500 + 3000 * j as u64);
     let vkey: [bool; NV] = core::array::from_fn(|i| i == 0);
-    let (rb, rlen) = ref_stream::<NV, NA>(&vpts, &apts, fast_start, audio);
+    let (rb_arr, rlen_arr) = ref_stream::<NV, NA>(&vpts, &apts, fast_start, audio);
+    // native replay: the real moov is written, so the reference is a fault-free native run
+    let native_ref: Vec<u8> = if replay_mode() {
+        let mut w0 = build_writer::<NV, NA>(RecSink::new(), vpts, vkey, apts, audio);
+        let r0 = w0.finalize(&VIDEO, None, fast_start);
+        assert!(r0.is_ok());
+        let b = mp4h::sink(&w0).log.clone();
+        core::mem::forget((w0, r0));
+        b
+    } else {
+        Vec::new()
+    };
+    let (rb, rlen): (&[u8], usize) = if replay_mode() { (&native_ref[..], native_ref.len()) } else { (&rb_arr[..], rlen_arr) };
     // ---- faulty run ---------------------------------------------------------------------
     let mut sink = RecSink::new();
     sink.fault_at = at;
@@ -168,7 +180,7 @@ fault_h!(c13_std_v1a1_at5, 1, 1, false, true, 5, 5);
 fault_h!(c13_fast_v2_at0, 2, 0, true, false, 0, 5);
 //@ prop=C13 tier=thorough cost=900 fns="Mp4Writer::finalize,finalize_fast_start,write_counted,io::Write::write_all" bound="fast start, video-only 2 samples; write call #1 fails hard / is Interrupted / accepts any number of bytes (all symbolic)" unwind=5 stubs="build_moov_box(recording stand-in)" timeout=3000
 fault_h!(c13_fast_v2_at1, 2, 0, true, false, 1, 5);
-//@ prop=C13 tier=thorough cost=900 fns="Mp4Writer::finalize,finalize_fast_start,write_counted,io::Write::write_all" bound="fast start, video-only 2 samples; write call #2 fails hard / is Interrupted / accepts any number of bytes (all symbolic)" unwind=5 stubs="build_moov_box(recording stand-in)" timeout=3000
+//@ prop=C13 tier=quick cost=300 fns="Mp4Writer::finalize,finalize_fast_start,write_counted,io::Write::write_all" bound="fast start, video-only 2 samples; write call #2 fails hard / is Interrupted / accepts any number of bytes (all symbolic)" unwind=5 stubs="build_moov_box(recording stand-in)" timeout=1200
 fault_h!(c13_fast_v2_at2, 2, 0, true, false, 2, 5);
 //@ prop=C13 tier=thorough cost=900 fns="Mp4Writer::finalize,finalize_fast_start,write_counted,io::Write::write_all" bound="fast start, video-only 2 samples; write call #3 fails hard / is Interrupted / accepts any number of bytes (all symbolic)" unwind=5 stubs="build_moov_box(recording stand-in)" timeout=3000
 fault_h!(c13_fast_v2_at3, 2, 0, true, false, 3, 5);
